@@ -462,7 +462,12 @@ impl World {
             return None;
         }
         let i = self.slots.len();
-        let own = (own_id != 0).then_some(u16::from(own_id));
+        // caller-chosen ids: 1..=249 as they are, 250..=255 stand for the top of the range (65530..=65535)
+        let own = match own_id {
+            0 => None,
+            x if x >= 250 => Some(65_535 - u16::from(255 - x)),
+            x => Some(u16::from(x)),
+        };
         let spec = SendSpec { kind: kind.clone(), topic: tag_topic(i), payload: vec![i as u8; 1 + i % 3], pid: own, user_prop: None };
         let fut = self.eut.send(spec);
         self.slots.push(Slot { again, own_id: own, ..Slot::new(kind, fut, self.step) });
